@@ -72,6 +72,7 @@ func (r *Reader) startEventPoller() {
 }
 
 func (r *Reader) fin(success bool) {
+	verifTrace("reader.fin", verifFlags(success, false), 0, "")
 	atomic.StoreInt32(&r.event, int32(EvtReadFin))
 	if r.wait {
 		<-r.finChan
@@ -98,6 +99,7 @@ func (r *Reader) terminate() {
 }
 
 func (r *Reader) restart(command commandSpec, environ []string, readyChan chan bool) {
+	verifTrace("reader.start", 1, 0, command.command)
 	r.event = int32(EvtReady)
 	r.startEventPoller()
 	success := r.readFromCommand(command.command, environ, func() {
@@ -122,6 +124,7 @@ func (r *Reader) readChannel(inputChan chan string) bool {
 
 // ReadSource reads data from the default command or from standard input
 func (r *Reader) ReadSource(inputChan chan string, roots []string, opts walkerOpts, ignores []string, initCmd string, initEnv []string, readyChan chan bool) {
+	verifTrace("reader.start", 0, 0, initCmd)
 	r.startEventPoller()
 	var success bool
 	signalReady := func() {
